@@ -490,7 +490,16 @@ type c10Chain struct {
 	form   *vh.C10DeepForm
 	depths []int
 	run    bool // a long-run chain (c10_runs.go): linear input, depths = run lengths N
+	growth bool // a growth chain (vh/gen_c10c.go): inputs of a few hundred bytes on a short depth ladder
 }
+
+// c10TinyInput: a growth chain (depth <= 30) that exhausts its CPU budget (seconds) on an input below this size is not
+// slow because the input is large or deep — a decoder that is quadratic or cubic in the depth spends microseconds on
+// it: the work multiplies with every level of nesting.
+const c10TinyInput = 4096
+
+// c10GrowthDepths: the ladder of the growth forms (inputs of 0.2 .. 1.5 KiB).
+var c10GrowthDepths = []int{6, 10, 14, 18, 22, 26, 30}
 
 // wrap a value-json form for the entries that expect an enclosing document
 func c10WrapForEntry(entry string, doc []byte) []byte {
@@ -596,7 +605,24 @@ func c10RunDeep(c *vh.Ctx, entries []*c10Entry) *c10DeepReport {
 			chains = append(chains, c10Chain{entry: en, form: f, depths: ds})
 		}
 	}
-	nDeep := len(chains)
+	// growth forms: every form through the first entry of its family (all entries in the thorough tier)
+	nGrowth := 0
+	for i := range vh.C10GrowthForms {
+		f := &vh.C10GrowthForms[i]
+		tg, ok := c10DeepTargets[f.Family]
+		if !ok {
+			continue
+		}
+		es := tg.entries
+		if !thorough && len(es) > tg.quickN {
+			es = es[:tg.quickN]
+		}
+		for _, en := range es {
+			chains = append(chains, c10Chain{entry: en, form: f, depths: c10GrowthDepths, growth: true})
+			nGrowth++
+		}
+	}
+	nDeep := len(chains) - nGrowth
 	runChains := c10RunChains(thorough)
 	chains = append(chains, runChains...)
 	nWorkers := 12
@@ -649,7 +675,7 @@ func c10RunDeep(c *vh.Ctx, entries []*c10Entry) *c10DeepReport {
 		return fmt.Sprint(rep.Table[i]["entry"], rep.Table[i]["form"]) < fmt.Sprint(rep.Table[j]["entry"], rep.Table[j]["form"])
 	})
 	sort.SliceStable(rep.Findings, func(i, j int) bool { return rep.Findings[i].Class < rep.Findings[j].Class })
-	rep.Notes = append(rep.Notes, fmt.Sprintf("deep nesting: %d (entry, form) chains + %d long-run chains (linear input, N up to %d), %d subprocess jobs, stack limit %d MiB", nDeep, len(runChains), c10MaxRunN(runChains), rep.Jobs, c10MaxStack>>20))
+	rep.Notes = append(rep.Notes, fmt.Sprintf("deep nesting: %d (entry, form) chains + %d growth chains (inputs < %d bytes, depth %v: the CPU budget exhausted on such an input = exponential time) + %d long-run chains (linear input, N up to %d), %d subprocess jobs, stack limit %d MiB", nDeep, nGrowth, c10TinyInput, c10GrowthDepths, len(runChains), c10MaxRunN(runChains), rep.Jobs, c10MaxStack>>20))
 	return rep
 }
 
@@ -694,6 +720,9 @@ func c10MakeJob(chn c10Chain, depth int, skip map[string]bool) c10Job {
 // a failure in the decoder ends the chain.  Stack overflows are bisected down to the smallest failing depth.
 func c10RunChain(wp **c10Worker, chn c10Chain, budget c10Budget, thorough bool) (map[string]any, []vh.Finding, int) {
 	row := map[string]any{"entry": chn.entry, "form": chn.form.Name}
+	if chn.growth {
+		row["kind"] = "growth"
+	}
 	var finds []vh.Finding
 	jobs := 0
 	outcomes := []string{}
@@ -785,6 +814,18 @@ ladder:
 					What: fmt.Sprintf("%s: form %s at depth %d (%d input bytes) overflows a %d MiB stack in stage %s, recursion in %s (fatal, not recoverable)", chn.entry, chn.form.Name, firstBad, nbytes, c10MaxStack>>20, bad.Stage, bad.Site),
 					Check: "oracle", Op: chn.entry, Input: input, Expected: "a value or an error", Actual: map[string]any{"outcome": o, "stage": bad.Stage, "site": bad.Site, "stderr": bad.Detail}})
 			case "cpu-budget":
+				if chn.growth && nbytes < c10TinyInput {
+					// seconds of CPU on a few hundred bytes nested at most 30 deep: exponential in the nesting depth (quadratic
+					// work on 30 levels is microseconds).  A class of its own (and no entry in c10KnownSlow: the other forms of
+					// the family are not slow at this depth).
+					input["document"] = string(chn.form.Build(firstBad))
+					input["cpu_ms_by_depth"] = strings.Join(outcomes[:len(outcomes)-1], " ")
+					finds = append(finds, vh.Finding{Class: "exponential-time:" + fam + ":" + stFam,
+						What: fmt.Sprintf("%s: form %s at depth %d (an input of %d bytes) did not finish stage %s within %d ms of CPU (running in %s): the time multiplies with every level of nesting (smaller depths: %s)",
+							chn.entry, chn.form.Name, firstBad, nbytes, bad.Stage, budget.forBytes(nbytes), bad.Site, strings.Join(outcomes[:len(outcomes)-1], " ")),
+						Check: "oracle", Op: chn.entry, Input: input, Expected: "a value or an error in time polynomial in the input", Actual: map[string]any{"outcome": o, "stage": bad.Stage, "site": bad.Site, "detail": bad.Detail}})
+					break
+				}
 				if stFam != "decode" || strings.HasSuffix(fam, "-json") { // a slow text decode is specific to its form (has-chain)
 					c10KnownSlow.Lock()
 					if dd, ok := c10KnownSlow.m[fam+":"+stFam]; !ok || d < dd {
@@ -864,7 +905,11 @@ func c10Replay(c *vh.Ctx) bool {
 	}
 	var w *c10Worker
 	defer func() { w.kill() }()
-	r := c10RunJob(&w, j, 60000)
+	replayBudget := int64(60000)
+	if strings.HasPrefix(rf.Finding.Class, "exponential-time:") {
+		replayBudget = 4000 // the budget the class is defined by (inputs below c10TinyInput get the lower clamp)
+	}
+	r := c10RunJob(&w, j, replayBudget)
 	c.Res.Notes = append(c.Res.Notes, fmt.Sprintf("replay %s: outcome=%s stage=%s site=%s cpu=%dms", entry, r.Outcome, r.Stage, r.Site, r.CPUms))
 	c.Count("replay", true)
 	if r.Outcome != "accepted" && r.Outcome != "rejected" {
